@@ -261,3 +261,369 @@ Proof.
     + apply nth_error_None in Ha. assert (Hs : nth_error (judge_from n (Z.of_nat (length arrs)) arrs 0 arrs) k <> None) by congruence.
       apply nth_error_Some in Hs. rewrite judge_from_length in Hs. lia.
 Qed.
+
+(** ============================================================================================================
+    The two-simcall protocol: every interleaving of ALock / AWait by any number of actors, any reuse. *)
+Definition key (a : acq) : pid * Z := (q_pid a, q_idx a).
+Definition ungranted (a : acq) : bool := negb (q_granted a).
+(* number of arrivals that belong to complete groups *)
+Definition bound (b : bar) : Z := arrived b - qlen b.
+
+Definition SInv (n : Z) (s : sbar) : Prop :=
+  Inv n (s_bar s) /\
+  map key (filter ungranted (s_acqs s)) = queue (s_bar s) /\
+  Forall (fun a => q_granted a = true -> q_waiting a = false /\ q_idx a < bound (s_bar s)) (s_acqs s).
+
+Lemma bound_closed : forall n b, 1 <= n -> Inv n b -> bound b = n * (arrived b / n).
+Proof.
+  intros n b Hn (_ & Ha & Hl & _). unfold bound. rewrite Hl. pose proof (Z.div_mod (arrived b) n). lia.
+Qed.
+
+Lemma find_acq_some : forall p l a, find_acq p l = Some a -> In a l /\ q_pid a = p.
+Proof. intros p l a H. apply find_some in H. destruct H as [H1 H2]. split; [assumption | lia]. Qed.
+
+Lemma find_acq_none : forall p l a, find_acq p l = None -> In a l -> q_pid a <> p.
+Proof. intros p l a H Hin. pose proof (find_none _ _ H a Hin) as Hx. cbn in Hx. lia. Qed.
+
+Lemma filter_remove_first : forall p l a, find_acq p l = Some a -> q_granted a = true ->
+  filter ungranted (remove_first p l) = filter ungranted l.
+Proof.
+  induction l as [|x r IH]; intros a Hf Hg; [discriminate|].
+  unfold find_acq in Hf. cbn [find remove_first] in *. destruct (q_pid x =? p) eqn:Hp.
+  - inv Hf. cbn [filter]. unfold ungranted at 2. rewrite Hg. reflexivity.
+  - cbn [filter]. rewrite (IH a Hf Hg). reflexivity.
+Qed.
+
+Lemma filter_upd_first : forall p f l, (forall x, key (f x) = key x /\ q_granted (f x) = q_granted x) ->
+  map key (filter ungranted (upd_first p f l)) = map key (filter ungranted l).
+Proof.
+  intros p f l Hf. induction l as [|x r IH]; [reflexivity|].
+  cbn [upd_first]. destruct (q_pid x =? p).
+  - cbn [filter]. unfold ungranted. destruct (Hf x) as [Hk Hg]. rewrite Hg.
+    destruct (q_granted x); cbn [negb map]; [reflexivity | now rewrite Hk].
+  - cbn [filter]. destruct (ungranted x); cbn [map]; now rewrite IH.
+Qed.
+
+Lemma Forall_remove_first : forall (P : acq -> Prop) p l, Forall P l -> Forall P (remove_first p l).
+Proof.
+  intros P p l H. induction H as [|x r Hx Hr IH]; cbn [remove_first]; [constructor|].
+  destruct (q_pid x =? p); [assumption | now constructor].
+Qed.
+
+Lemma Forall_upd_first : forall (P : acq -> Prop) p f l a, Forall P l -> find_acq p l = Some a -> P (f a) ->
+  Forall P (upd_first p f l).
+Proof.
+  intros P p f l a H. induction H as [|x r Hx Hr IH]; intros Hf Hp; [discriminate|].
+  unfold find_acq in Hf. cbn [find upd_first] in *. destruct (q_pid x =? p).
+  - inv Hf. now constructor.
+  - constructor; [assumption | now apply IH].
+Qed.
+
+Lemma ungranted_in_queue : forall l q a, map key (filter ungranted l) = q -> In a l -> q_granted a = false ->
+  In (key a) q.
+Proof.
+  intros l q a Hq Hin Hg. rewrite <- Hq. apply in_map. apply filter_In. split; [assumption|].
+  unfold ungranted. now rewrite Hg.
+Qed.
+
+Lemma in_queue_true : forall e q, In e q -> in_queue (fst e) q = true.
+Proof. intros e q H. unfold in_queue. apply existsb_exists. exists e. split; [assumption | apply Z.eqb_refl]. Qed.
+
+Lemma in_queue_acq : forall l q p, map key (filter ungranted l) = q -> in_queue p q = true ->
+  exists a, In a l /\ q_pid a = p /\ q_granted a = false.
+Proof.
+  intros l q p Hq Hin. unfold in_queue in Hin. apply existsb_exists in Hin. destruct Hin as (e & He & Hp).
+  rewrite <- Hq in He. apply in_map_iff in He. destruct He as (a & Hk & Ha). apply filter_In in Ha.
+  destruct Ha as [Ha Hu]. exists a. subst e. cbn in Hp. unfold ungranted in Hu.
+  repeat split; [assumption | lia | now destruct (q_granted a)].
+Qed.
+
+Lemma grant_all_granted : forall q l, (forall a, In a l -> q_granted a = false -> in_queue (q_pid a) q = true) ->
+  filter ungranted (grant_acqs q l) = [].
+Proof.
+  intros q l. induction l as [|a r IH]; intros H; [reflexivity|].
+  assert (Hr : forall x, In x r -> q_granted x = false -> in_queue (q_pid x) q = true)
+    by (intros x Hx; apply H; now right).
+  cbn [grant_acqs]. destruct (in_queue (q_pid a) q) eqn:Hq.
+  - destruct (q_waiting a); [now apply IH|]. cbn [filter]. unfold ungranted at 1. cbn. now apply IH.
+  - cbn [filter]. unfold ungranted at 1. destruct (q_granted a) eqn:Hg; cbn [negb]; [now apply IH|].
+    rewrite (H a (or_introl eq_refl) Hg) in Hq. discriminate.
+Qed.
+
+Lemma grant_forall : forall q l B B',
+  Forall (fun a => q_granted a = true -> q_waiting a = false /\ q_idx a < B) l ->
+  (forall a, In a l -> q_granted a = false -> q_idx a < B') -> B <= B' ->
+  Forall (fun a => q_granted a = true -> q_waiting a = false /\ q_idx a < B') (grant_acqs q l).
+Proof.
+  intros q l B B' H. induction H as [|a r Ha Hr IH]; intros Hu HB; cbn [grant_acqs]; [constructor|].
+  assert (IH' : Forall (fun a => q_granted a = true -> q_waiting a = false /\ q_idx a < B') (grant_acqs q r))
+    by (apply IH; [intros x Hx; apply Hu; now right | assumption]).
+  destruct (in_queue (q_pid a) q).
+  - destruct (q_waiting a) eqn:Hw; [assumption|]. constructor; [|assumption].
+    intros _. cbn [set_granted q_waiting q_idx]. split; [assumption|].
+    destruct (q_granted a) eqn:Hg.
+    + destruct (Ha eq_refl). lia.
+    + apply Hu; [now left | assumption].
+  - constructor; [|assumption]. intros Hg. destruct (Ha Hg). split; [assumption | lia].
+Qed.
+
+(* an actor that may issue ALock is not in the queue: the one-simcall [step] does not reject it *)
+Lemma lock_not_in_queue : forall n s p, SInv n s -> find_acq p (s_acqs s) = None ->
+  in_queue p (queue (s_bar s)) = false.
+Proof.
+  intros n s p (_ & Hq & _) Hf. destruct (in_queue p (queue (s_bar s))) eqn:Hin; [|reflexivity].
+  destruct (in_queue_acq _ _ _ Hq Hin) as (a & Ha & Hp & _).
+  exfalso. exact (find_acq_none p _ a Hf Ha Hp).
+Qed.
+
+(* one accepted ALock IS one step of the one-simcall protocol *)
+Lemma sstep_lock_bar : forall n s p, SInv n s -> find_acq p (s_acqs s) = None ->
+  step (s_bar s) p = (s_bar (fst (sstep s (ALock p))), proj_out (s_bar s) (snd (sstep s (ALock p)))).
+Proof.
+  intros n s p HI Hf. unfold step, sstep. rewrite Hf, (lock_not_in_queue n s p HI Hf).
+  destruct (Z.of_nat (length (queue (s_bar s))) <? (expected (s_bar s) - 1) mod W32); reflexivity.
+Qed.
+
+Lemma sstep_wait_bar : forall s p, s_bar (fst (sstep s (AWait p))) = s_bar s.
+Proof.
+  intros s p. unfold sstep. destruct (find_acq p (s_acqs s)) as [a|]; [|reflexivity].
+  destruct (q_waiting a); [reflexivity|]. destruct (q_granted a); reflexivity.
+Qed.
+
+Lemma sinv_init : forall n, 1 <= n < W32 -> SInv n (sinit n).
+Proof. intros n Hn. split; [now apply inv_init|]. split; [reflexivity | constructor]. Qed.
+
+Lemma queue_idx_bounds : forall n b e, Inv n b -> In e (queue b) -> bound b <= snd e < arrived b.
+Proof.
+  intros n b e (_ & _ & _ & Hq) He. assert (H : In (snd e) (map snd (queue b))) by now apply in_map.
+  rewrite Hq in H. apply In_zseq in H. unfold bound, qlen in *. lia.
+Qed.
+
+Lemma sinv_step : forall n s o, 1 <= n < W32 -> SInv n s -> SInv n (fst (sstep s o)).
+Proof.
+  intros n s o Hn HI. pose proof HI as (Hb & Hq & Hg). destruct o as [p|p].
+  - (* ALock *)
+    destruct (find_acq p (s_acqs s)) as [a|] eqn:Hf.
+    { unfold sstep. rewrite Hf. exact HI. }
+    pose proof (sstep_lock_bar n s p HI Hf) as Hs.
+    assert (Hb' : Inv n (s_bar (fst (sstep s (ALock p))))).
+    { pose proof (inv_step n (s_bar s) p Hn Hb) as H. rewrite Hs in H. exact H. }
+    split; [exact Hb'|]. clear Hs Hb'. unfold sstep. rewrite Hf.
+    destruct (Z.of_nat (length (queue (s_bar s))) <? (expected (s_bar s) - 1) mod W32) eqn:Hc; cbn [fst s_bar s_acqs].
+    + split.
+      * rewrite filter_app, map_app, Hq. reflexivity.
+      * apply Forall_app. split.
+        -- eapply Forall_impl; [|exact Hg]. intros a Ha Hga. destruct (Ha Hga) as [H1 H2]. split; [assumption|].
+           unfold bound, qlen in *. cbn [arrived queue]. rewrite app_length. cbn [length]. lia.
+        -- constructor; [|constructor]. cbn. discriminate.
+    + split.
+      * rewrite filter_app, grant_all_granted; [reflexivity|].
+        intros a Ha Hga. apply (in_queue_true (key a)). eapply ungranted_in_queue; eassumption.
+      * apply Forall_app. split.
+        -- apply grant_forall with (B := bound (s_bar s)); [exact Hg | |].
+           ++ intros a Ha Hga. pose proof (ungranted_in_queue _ _ a Hq Ha Hga) as Hin.
+              pose proof (queue_idx_bounds n _ _ Hb Hin) as Hbd. unfold bound, qlen. cbn. cbn in Hbd. lia.
+           ++ unfold bound, qlen. cbn. lia.
+        -- constructor; [|constructor]. intros _. unfold bound, qlen. cbn. split; [reflexivity | lia].
+  - (* AWait *)
+    unfold sstep. destruct (find_acq p (s_acqs s)) as [a|] eqn:Hf; [|exact HI].
+    destruct (q_waiting a) eqn:Hw; [exact HI|].
+    destruct (q_granted a) eqn:Hga; cbn [fst]; (split; [exact Hb|]); cbn [s_bar s_acqs]; split.
+    + rewrite (filter_remove_first p _ a Hf Hga). exact Hq.
+    + now apply Forall_remove_first.
+    + rewrite filter_upd_first; [exact Hq|]. intros x. split; reflexivity.
+    + apply Forall_upd_first with (a := a); [exact Hg | exact Hf|]. cbn. rewrite Hga. discriminate.
+Qed.
+
+Lemma sexec_inv_gen : forall n ops s, 1 <= n < W32 -> SInv n s ->
+  SInv n (fold_left (fun s o => fst (sstep s o)) ops s).
+Proof.
+  intros n ops. induction ops as [|o r IH]; intros s Hn Hs; cbn; [assumption|].
+  apply IH; [assumption | now apply sinv_step].
+Qed.
+
+Theorem split_inv : forall n ops, 1 <= n < W32 -> SInv n (sexec n ops).
+Proof. intros. apply sexec_inv_gen; [assumption | now apply sinv_init]. Qed.
+
+(* a live acquisition is granted exactly when the n arrivals of its group happened *)
+Lemma granted_iff_complete : forall n s a, 1 <= n < W32 -> SInv n s -> In a (s_acqs s) ->
+  (q_granted a = true <-> n * (q_idx a / n + 1) <= arrived (s_bar s)).
+Proof.
+  intros n s a Hn (Hb & Hq & Hg) Ha. pose proof (bound_closed n _ ltac:(lia) Hb) as HB.
+  pose proof Hb as (_ & Har & _). pose proof (fun e => queue_idx_bounds n (s_bar s) e Hb) as HQ.
+  set (A := arrived (s_bar s)) in *.
+  destruct (q_granted a) eqn:Hga.
+  - split; [intros _ | reflexivity]. rewrite Forall_forall in Hg. destruct (Hg a Ha Hga) as [_ Hi].
+    rewrite HB in Hi. assert (q_idx a / n < A / n) by (apply Z.div_lt_upper_bound; lia).
+    pose proof (Z.div_mod A n). pose proof (Z.mod_pos_bound A n). nia.
+  - split; [discriminate | intros Hc]. exfalso.
+    pose proof (ungranted_in_queue _ _ a Hq Ha Hga) as Hin.
+    assert (Hbd : bound (s_bar s) <= q_idx a < A).
+    { apply (HQ (key a)). assumption. }
+    rewrite HB in Hbd. assert (A / n <= q_idx a / n) by (apply Z.div_le_lower_bound; lia).
+    pose proof (Z.div_mod A n). pose proof (Z.mod_pos_bound A n). nia.
+Qed.
+
+(* [no_early_return] for any reachable state of the one-simcall protocol *)
+Lemma release_exact : forall n b p b' w me e, 1 <= n < W32 -> Inv n b ->
+  step b p = (b', Release w me) -> In e (w ++ [me]) -> arrived b + 1 = n * (snd e / n + 1).
+Proof.
+  intros n b p b' w me e Hn HI Hs Hin.
+  destruct (step_release_inv n b p b' w me Hn HI Hs) as (Hm & Hseq & _).
+  destruct HI as (_ & Ha & _).
+  assert (He : In (snd e) (map snd (w ++ [me]))) by (apply in_map; assumption).
+  rewrite Hseq in He. apply In_zseq in He. rewrite Z2Nat.id in He by lia.
+  set (m := arrived b + 1) in *.
+  assert (Hmk : m = n * (m / n)) by (pose proof (Z.div_mod m n); lia).
+  assert (Hk : snd e / n = m / n - 1).
+  { symmetry. apply Z.div_unique with (r := snd e - n * (m / n - 1)); [left|]; nia. }
+  rewrite Hk. lia.
+Qed.
+
+(** a wait returns only when the n arrivals of its group happened *)
+Theorem split_no_early_return : forall n ops o s' x e, 1 <= n < W32 ->
+  sstep (sexec n ops) o = (s', x) -> In e (returned x) -> n * (snd e / n + 1) <= arrived (s_bar s').
+Proof.
+  intros n ops o s' x e Hn Hs He. pose proof (split_inv n ops Hn) as HI. set (s := sexec n ops) in *.
+  destruct o as [p|p].
+  - destruct (find_acq p (s_acqs s)) as [a|] eqn:Hf.
+    { unfold sstep in Hs. rewrite Hf in Hs. inv Hs. destruct He. }
+    pose proof (sstep_lock_bar n s p HI Hf) as Hb. rewrite Hs in Hb. cbn [fst snd] in Hb.
+    assert (Hx : x = SQueued \/ exists self, x = SGrant (filter (is_waiting (s_acqs s)) (queue (s_bar s)))
+                                  (filter (fun e => negb (is_waiting (s_acqs s) e)) (queue (s_bar s))) self).
+    { unfold sstep in Hs. rewrite Hf in Hs.
+      destruct (Z.of_nat (length (queue (s_bar s))) <? (expected (s_bar s) - 1) mod W32); inv Hs; eauto. }
+    destruct Hx as [->|(self & ->)]; cbn [returned] in He; [destruct He|]. cbn [proj_out] in Hb.
+    destruct HI as (Hinv & _).
+    assert (Hin : In e (queue (s_bar s) ++ [self])).
+    { apply in_or_app. left. apply filter_In in He. tauto. }
+    pose proof (release_exact n _ p _ _ _ e Hn Hinv Hb Hin) as Hx.
+    destruct (step_release_inv n _ p _ _ _ Hn Hinv Hb) as (_ & _ & _ & _ & Ha). lia.
+  - unfold sstep in Hs. destruct (find_acq p (s_acqs s)) as [a|] eqn:Hf; [|inv Hs; destruct He].
+    destruct (q_waiting a); [inv Hs; destruct He|].
+    destruct (q_granted a) eqn:Hg; inv Hs; cbn [returned] in He; [|destruct He].
+    destruct He as [<-|[]]. cbn [snd s_bar].
+    apply (granted_iff_complete n s a Hn HI); [|assumption]. apply (find_acq_some p _ a Hf).
+Qed.
+
+(** a wait on a live acquisition returns at once iff its group is complete, blocks iff it is not *)
+Theorem split_wait_iff_complete : forall n ops p a, 1 <= n < W32 ->
+  let s := sexec n ops in
+  find_acq p (s_acqs s) = Some a -> q_waiting a = false ->
+  (n * (q_idx a / n + 1) <= arrived (s_bar s) -> snd (sstep s (AWait p)) = SReturns (p, q_idx a)) /\
+  (arrived (s_bar s) < n * (q_idx a / n + 1) -> snd (sstep s (AWait p)) = SBlocks).
+Proof.
+  intros n ops p a Hn s Hf Hw. pose proof (split_inv n ops Hn) as HI. fold s in HI.
+  pose proof (granted_iff_complete n s a Hn HI (proj1 (find_acq_some p _ a Hf))) as Hg.
+  unfold sstep. rewrite Hf, Hw. destruct (q_granted a); cbn [snd]; split; intros H; try reflexivity.
+  - destruct Hg as [Hg _]. specialize (Hg eq_refl). lia.
+  - destruct Hg as [_ Hg]. specialize (Hg H). discriminate.
+Qed.
+
+(** nobody stays blocked once its group is complete: the blocked waiters are in the queue (their group is the
+    current, incomplete one) *)
+Theorem split_blocked_incomplete : forall n ops a, 1 <= n < W32 ->
+  let s := sexec n ops in
+  In a (s_acqs s) -> q_waiting a = true ->
+  q_granted a = false /\ In (q_pid a, q_idx a) (queue (s_bar s)) /\ arrived (s_bar s) < n * (q_idx a / n + 1).
+Proof.
+  intros n ops a Hn s Ha Hw. pose proof (split_inv n ops Hn) as HI. fold s in HI.
+  pose proof (granted_iff_complete n s a Hn HI Ha) as Hg. destruct HI as (_ & Hq & Hf).
+  rewrite Forall_forall in Hf. specialize (Hf a Ha).
+  destruct (q_granted a) eqn:Hga.
+  - destruct (Hf eq_refl) as [H _]. congruence.
+  - split; [reflexivity|]. split; [exact (ungranted_in_queue _ _ a Hq Ha Hga)|].
+    destruct (Z_lt_le_dec (arrived (s_bar s)) (n * (q_idx a / n + 1))) as [|Hc]; [assumption|].
+    destruct Hg as [_ Hg]. specialize (Hg Hc). discriminate.
+Qed.
+
+(** the live acquisitions that are not granted are exactly the queue, in order: the barrier state is the one of
+    the one-simcall protocol; after a grant nothing of the released group is left in it *)
+Theorem split_state : forall n ops, 1 <= n < W32 ->
+  let s := sexec n ops in
+  map key (filter ungranted (s_acqs s)) = queue (s_bar s) /\
+  Z.of_nat (length (queue (s_bar s))) = arrived (s_bar s) mod n /\
+  map snd (queue (s_bar s)) = zseq (n * (arrived (s_bar s) / n)) (length (queue (s_bar s))).
+Proof.
+  intros n ops Hn s. destruct (split_inv n ops Hn) as (Hb & Hq & _). fold s in Hb, Hq.
+  split; [assumption|]. destruct Hb as (_ & Ha & Hl & Hs). unfold qlen in *. split; [assumption|].
+  rewrite Hs. f_equal. pose proof (Z.div_mod (arrived (s_bar s)) n). lia.
+Qed.
+
+Theorem split_grant : forall n ops p s' w mk me, 1 <= n < W32 ->
+  let s := sexec n ops in
+  sstep s (ALock p) = (s', SGrant w mk me) ->
+  step (s_bar s) p = (s_bar s', Release (queue (s_bar s)) me) /\
+  (forall e, In e (queue (s_bar s)) <-> In e w \/ In e mk) /\
+  (forall e, In e w <-> In e (queue (s_bar s)) /\ is_waiting (s_acqs s) e = true) /\
+  queue (s_bar s') = [] /\ filter ungranted (s_acqs s') = [] /\ arrived (s_bar s') mod n = 0.
+Proof.
+  intros n ops p s' w mk me Hn s Hs. pose proof (split_inv n ops Hn) as HI. fold s in HI.
+  destruct (find_acq p (s_acqs s)) as [a|] eqn:Hf.
+  { unfold sstep in Hs. rewrite Hf in Hs. discriminate. }
+  pose proof (sstep_lock_bar n s p HI Hf) as Hb. rewrite Hs in Hb. cbn [fst snd proj_out] in Hb.
+  pose proof (sinv_step n s (ALock p) Hn HI) as HI'. rewrite Hs in HI'. cbn [fst] in HI'.
+  destruct HI as (Hinv & _).
+  destruct (step_release_inv n _ p _ _ _ Hn Hinv Hb) as (Hm & _ & _ & Hq' & Ha').
+  assert (Hw : w = filter (is_waiting (s_acqs s)) (queue (s_bar s)) /\
+               mk = filter (fun e => negb (is_waiting (s_acqs s) e)) (queue (s_bar s))).
+  { unfold sstep in Hs. rewrite Hf in Hs.
+    destruct (Z.of_nat (length (queue (s_bar s))) <? (expected (s_bar s) - 1) mod W32); inv Hs. auto. }
+  destruct Hw as [-> ->]. clear Hs.
+  split; [assumption|]. split; [|split].
+  - intros e. rewrite !filter_In. destruct (is_waiting (s_acqs s) e); cbn [negb]; intuition congruence.
+  - intros e. rewrite filter_In. tauto.
+  - split; [assumption|]. split.
+    + destruct HI' as (_ & Hq2 & _). rewrite Hq' in Hq2. now apply map_eq_nil in Hq2.
+    + rewrite Ha'. assumption.
+Qed.
+
+(** refinement: the barrier component of the split protocol after any interleaving is the state of the one-simcall
+    protocol after the accepted ALocks (in their order), none of which it rejects, and it forms the same groups *)
+Lemma split_refines_gen : forall n ops s, 1 <= n < W32 -> SInv n s ->
+  s_bar (fold_left (fun s o => fst (sstep s o)) ops s) =
+    fold_left (fun b p => fst (step b p)) (map fst (locks s ops)) (s_bar s) /\
+  run (s_bar s) (map fst (locks s ops)) = map snd (locks s ops).
+Proof.
+  intros n ops. induction ops as [|o r IH]; intros s Hn HI; [split; reflexivity|].
+  pose proof (sinv_step n s o Hn HI) as HI'. cbn [fold_left locks].
+  destruct o as [p|p].
+  - destruct (find_acq p (s_acqs s)) as [a|] eqn:Hf.
+    + assert (Hs : sstep s (ALock p) = (s, SRejected)) by (unfold sstep; now rewrite Hf).
+      rewrite Hs in *. cbn [fst] in *. apply IH; assumption.
+    + pose proof (sstep_lock_bar n s p HI Hf) as Hb.
+      destruct (sstep s (ALock p)) as [s1 x] eqn:Hs. cbn [fst snd] in *.
+      assert (Hx : x <> SRejected).
+      { unfold sstep in Hs. rewrite Hf in Hs.
+        destruct (Z.of_nat (length (queue (s_bar s))) <? (expected (s_bar s) - 1) mod W32); inv Hs; discriminate. }
+      destruct (IH s1 Hn HI') as [IH1 IH2].
+      destruct x; try congruence; cbn [map fst snd fold_left run]; rewrite Hb; cbn [fst]; (split; [assumption|]);
+        rewrite IH2; reflexivity.
+  - pose proof (sstep_wait_bar s p) as Hb. destruct (sstep s (AWait p)) as [s1 x]. cbn [fst] in *.
+    destruct (IH s1 Hn HI') as [IH1 IH2]. rewrite Hb in IH1, IH2. split; assumption.
+Qed.
+
+Theorem split_refines : forall n ops, 1 <= n < W32 ->
+  let lk := locks (sinit n) ops in
+  s_bar (sexec n ops) = exec n (map fst lk) /\
+  run (init n) (map fst lk) = map snd lk /\
+  Forall (fun o => accepted o = true) (map snd lk).
+Proof.
+  intros n ops Hn lk. destruct (split_refines_gen n ops (sinit n) Hn (sinv_init n Hn)) as [H1 H2].
+  split; [exact H1|]. split; [exact H2|].
+  clear. unfold lk. generalize (sinit n). induction ops as [|o r IH]; intros s; cbn [locks map]; [constructor|].
+  destruct (sstep s o) as [s1 x]. destruct o as [p|p]; [|apply IH].
+  destruct x; cbn [map snd]; try apply IH; (constructor; [reflexivity | apply IH]).
+Qed.
+
+(** arrivals are numbered in ALock order: [arrived] counts the accepted ALocks *)
+Theorem split_arrival_counter : forall n ops, 1 <= n < W32 ->
+  arrived (s_bar (sexec n ops)) = Z.of_nat (length (locks (sinit n) ops)).
+Proof.
+  intros n ops Hn. destruct (split_refines n ops Hn) as (H1 & H2 & H3).
+  rewrite H1, arrival_counter, H2.
+  assert (Hf : forall l, Forall (fun o => accepted o = true) l -> filter accepted l = l).
+  { clear. induction l as [|x r IHl]; intros H; [reflexivity|]. inversion H as [|? ? Hx Hr]; subst.
+    cbn [filter]. rewrite Hx. now rewrite IHl. }
+  rewrite Hf by assumption. now rewrite map_length.
+Qed.
